@@ -320,7 +320,7 @@ type gxTextRunner struct {
 
 func (c *Ctx) newGxTextRunner(hx *gxHarness) *gxTextRunner {
 	r := &gxTextRunner{c: c, m: newMach(c), hx: hx}
-	r.m.maxSteps = 3000000
+	r.m.maxSteps = 6000000 // the longest returning texts of the quick tier take about 70000 steps
 	ctor := c.MustFunc(pkgParsers, "", "NewExpressionParser")
 	r.pt = resultType(ctor)
 	p, o := r.m.Call(ctor)
@@ -335,11 +335,12 @@ func (c *Ctx) newGxTextRunner(hx *gxHarness) *gxTextRunner {
 }
 
 type gxTextOutcome struct {
-	kind  string // "accept", "reject", "panic", "opaque"
+	kind  string // "accept", "reject", "panic", "opaque", "nonterm" (the whole step budget used up)
 	code  string
 	msg   string
 	why   string
 	types []string // accepted: the token types of the compiled program
+	steps int      // abstract steps of the ParseString call ("nonterm": the budget it used up)
 }
 
 func (r *gxTextRunner) parse(text string) gxTextOutcome {
@@ -348,16 +349,19 @@ func (r *gxTextRunner) parse(text string) gxTextOutcome {
 	}
 	r.m.steps = 0
 	errv, o := callM(r.c, r.m, r.pt, "ParseString", r.parser, text)
+	used := r.m.steps
 	switch {
+	case gxOutOfBudget(o):
+		return gxTextOutcome{kind: "nonterm", why: o.why, steps: r.m.maxSteps}
 	case o.kind == "panic":
 		return gxTextOutcome{kind: "panic", why: o.why}
 	case o.kind != "ok":
 		return gxTextOutcome{kind: "opaque", why: o.why}
 	}
 	if _, isNil := errv.(mNilT); !isNil {
-		return gxTextOutcome{kind: "reject", code: errorCode(errv), msg: errorField(errv, "Message")}
+		return gxTextOutcome{kind: "reject", code: errorCode(errv), msg: errorField(errv, "Message"), steps: used}
 	}
-	res := gxTextOutcome{kind: "accept"}
+	res := gxTextOutcome{kind: "accept", steps: used}
 	rv, o := r.m.Call(r.hx.resultTokens, r.parser)
 	if o.kind != "ok" {
 		return gxTextOutcome{kind: "opaque", why: "ResultTokens: " + o.why}
@@ -401,6 +405,29 @@ func gxTypesOf(rpn []string) []string {
 type gxTextJudgement struct {
 	treeBad, langBad, posBad, undec string
 	positioned, sentence            bool
+	steps                           int    // of a parse that returned
+	nonterm, ntWhy                  string // a parse that used up its budget (judged against the family's longest returning one)
+	budget                          int
+}
+
+// gxSettleNonTermination: the runs of a family that used up their budget, judged once the longest returning
+// parse of the family is known.
+func gxSettleNonTermination(js []gxTextJudgement) {
+	maxReturning := 0
+	for _, j := range js {
+		if j.steps > maxReturning {
+			maxReturning = j.steps
+		}
+	}
+	for i := range js {
+		if j := &js[i]; j.nonterm != "" {
+			bad, undec := gxNonTermination(j.nonterm, j.ntWhy, j.budget, maxReturning)
+			if j.langBad == "" {
+				j.langBad = bad
+			}
+			j.undec = undec
+		}
+	}
 }
 
 // gxJudgeText compares what ParseString did with a rendering with what the reference grammar says about the
@@ -415,9 +442,14 @@ func gxJudgeText(rd gxRendering, got gxTextOutcome) gxTextJudgement {
 	}
 	show := fmt.Sprintf("ParseString(%+q) [the token string ‹%s› %s]", rd.text, strings.Join(toks, " "), rd.how)
 	wantT := strings.Join(gxTypesOf(want), " ")
+	if got.kind == "accept" || got.kind == "reject" {
+		j.steps = got.steps
+	}
 	switch got.kind {
 	case "opaque":
 		j.undec = show + ": " + got.why
+	case "nonterm":
+		j.nonterm, j.ntWhy, j.budget = show, got.why, got.steps
 	case "panic":
 		j.langBad = fmt.Sprintf("%s panics (%s) instead of returning a syntax error or a program", show, got.why)
 	case "accept":
@@ -471,6 +503,7 @@ func (c *Ctx) gxRunTexts(name string, rends []gxRendering, hx *gxHarness) *gxFam
 		}(w)
 	}
 	wg.Wait()
+	gxSettleNonTermination(js)
 	for _, j := range js {
 		fv.v.runs++
 		if j.sentence {
@@ -529,6 +562,7 @@ var gxLookalikeFrames = []string{"§ + 1", "a § b", "a NOT § b", "a § NULL", 
 func (c *Ctx) gxRunLookalikes(hx *gxHarness) *gxFamVerdict {
 	fv := &gxFamVerdict{fam: gxFamily{name: "text-keyword-lookalikes"}}
 	r := c.newGxTextRunner(hx)
+	var timed []gxTextJudgement // steps of the returning runs, and the runs that used up their budget
 	for _, la := range gxLookalikes() {
 		// first departure under each reading: [0] identifier, [1] keyword
 		var tree, lang [2]string
@@ -562,6 +596,9 @@ func (c *Ctx) gxRunLookalikes(hx *gxHarness) *gxFamVerdict {
 				rr.ls = ls[reading]
 				rr.how = fmt.Sprintf("%s, ‹%s› (lexeme %d) read as %s", how, gxShowLexeme(la.word), slot+1, []string{"an identifier", "the keyword " + la.keyword}[reading])
 				j := gxJudgeText(rr, got)
+				if reading == 0 {
+					timed = append(timed, gxTextJudgement{steps: j.steps, nonterm: j.nonterm, ntWhy: j.ntWhy, budget: j.budget})
+				}
 				if j.undec != "" && fv.v.undec == "" {
 					fv.v.undec = j.undec
 				}
@@ -590,6 +627,16 @@ func (c *Ctx) gxRunLookalikes(hx *gxHarness) *gxFamVerdict {
 			} else {
 				set(&fv.v.treeBad, both)
 			}
+		}
+	}
+	// identifier or keyword, the parser returns
+	gxSettleNonTermination(timed)
+	for _, j := range timed {
+		if j.langBad != "" && fv.v.langBad == "" {
+			fv.v.langBad = j.langBad
+		}
+		if j.undec != "" && fv.v.undec == "" {
+			fv.v.undec = j.undec
 		}
 	}
 	return fv
